@@ -293,6 +293,52 @@ func (c *cluster) checkReplicas(out *cq.Out, rng *cq.Rng, prefix string, desc ma
 			}
 			out.Case(fmt.Sprintf("%s:proof:%d:%d:%d", prefix, i, k, q), k < q)
 		}
+		// a replica serves many clients at once: eight of them ask this replica for proofs of older events at later versions at
+		// the same time; every proof must verify against the leader's snapshots (once per replica and quiescent point)
+		if len(c.acked) >= 8 {
+			var wg sync.WaitGroup
+			var bmu sync.Mutex
+			bad, asked := 0, 0
+			first := ""
+			for g := 0; g < 8; g++ {
+				wg.Add(1)
+				go func(g int) {
+					defer wg.Done()
+					for t := 0; t < 60; t++ {
+						k := uint64((g*31 + t*7) % (len(c.acked) - 1))
+						q := k + 1 + uint64((g+t)%int(cur-k))
+						d := hashing.NewSha256Hasher().Do(c.events[k])
+						ok := false
+						what := ""
+						pn, msg := cq.Catch(func() {
+							p, err := n.QueryDigestMembershipConsistency(d, q)
+							if err != nil || p == nil {
+								what = fmt.Sprintf("error %v", err)
+								return
+							}
+							ok = p.Exists && p.DigestVerify(d, &balloon.Snapshot{HistoryDigest: c.acked[q].HistoryDigest, HyperDigest: c.acked[cur].HyperDigest})
+						})
+						if pn {
+							what = "panic: " + msg
+						}
+						bmu.Lock()
+						asked++
+						if !ok {
+							bad++
+							if first == "" {
+								first = fmt.Sprintf("event %d at version %d: %.150s", k, q, what)
+							}
+						}
+						bmu.Unlock()
+					}
+				}(g)
+			}
+			wg.Wait()
+			out.Count("replica_concurrent_queries", asked)
+			if bad > 0 {
+				violate(":replica-proof-does-not-verify:concurrent-clients", fmt.Sprintf("eight clients asked node %d for membership proofs at the same time: %d of %d proofs do not verify against the leader's snapshots (first: %s); one at a time they verify", i, bad, asked, first))
+			}
+		}
 		// the current version reported equals accepted - 1
 		d := hashing.NewSha256Hasher().Do(c.events[0])
 		pq, qmsg := cq.Catch(func() {
